@@ -22,6 +22,8 @@ import WpModel.Lemmas.LineVertical
 import WpModel.Lemmas.LineVerticalTB
 import WpModel.Lemmas.InlinePreferred
 import WpModel.Lemmas.LineFloats
+import WpModel.Lemmas.LineFloatsInline
+import WpModel.Lemmas.InlineNoWrap
 
 namespace Wp.C09
 open Wp Wp.Py Wp.Pango Wp.LB Wp.C09L
@@ -45,6 +47,22 @@ as `split_first_line`. -/
 theorem collapse_tables_agree (w : WS) :
     w.skipFirst = w.spaceCollapse ∧ w.removeLast = w.spaceCollapse ∧ w.alignCollapse = w.spaceCollapse :=
   C09L.collapse_tables_agree w
+
+/-- `can_break_inside` (re-breaking the waiting children of `split_inline_box`) allows wrapping under
+exactly the `white-space` values under which `split_first_line` wraps: a text that `split_first_line`
+would break can also be re-broken when a later inline box overflows (seed C09-6 drops `pre-line`). -/
+theorem can_break_inside_wrap_eq_text_wrap (w : WS) : w.breakInside = w.textWrap := by
+  cases w <;> decide
+
+/-- `split_inline_box` refuses a break opportunity between two children under exactly the
+non-wrapping values `pre` and `nowrap`. -/
+theorem no_break_between_iff_no_wrap (w : WS) : w.noBreakBetween = !w.textWrap := by
+  cases w <;> decide
+
+/-- `preferred.inline_line_widths` measures with the same collapsing and wrapping sets as
+`split_first_line` lays out with (otherwise min-content / max-content widths and the layout disagree). -/
+theorem preferred_tables_agree (w : WS) : w.prefCollapse = w.spaceCollapse ∧ w.prefWrap = w.textWrap := by
+  cases w <;> decide
 
 /-- Pango's automatic hyphens are switched off exactly for `overflow-wrap: anywhere | break-word`. -/
 theorem word_breaking_values (o : OW) : o.wordBreaking = true ↔ (o = .anywhere ∨ o = .breakWord) :=
@@ -320,7 +338,10 @@ theorem justified_line_fills (s : AlignStyle) (x lw : Rat) (rtl : Bool) (kids : 
     off = 0 ∧ IBox.width line' = avail :=
   C09L.justified_line_fills s x lw rtl kids avail off last line' hlt hj hc hs h
 
-example : countSpaces (.inl 0 70 false [.text 0 30 1, .inl 30 40 true [.atom 30 false, .text 30 40 2]]) = 3 := by
+/-- the spaces inside an atomic inline-level box (an inline-block holding `cc dd`) are not expandable
+spaces of the line: 3, not 4 -/
+example : countSpaces (.inl 0 70 false [.text 0 30 1, .inl 30 40 true [.atom 30 true [.inl 30 0 false [.text 30 0 1]],
+    .text 30 40 2]]) = 3 := by
   decide
 
 /-! ### stack -/
@@ -384,12 +405,12 @@ example : (Hy.splitFirstLineHy { ws := .normal, wb := .normal, ow := .normal, fs
 /-- **an inline box carries its start spacing on its first fragment only and its end spacing on its
 last fragment only** (`remove_decoration(start=not is_start, end=not is_end)`), and the fragment sits
 at the `position_x` it was given. -/
-theorem inline_spacing_first_last (split : IR.Split) (ls rs : Rat) (deco : Bool) (kids : List IR.Node)
+theorem inline_spacing_first_last (ws : WS) (split : IR.Split) (ls rs : Rat) (deco : Bool) (kids : List IR.Node)
     (posX maxX : Rat) (skip : Option IR.Skip) (o : IR.LevelOut)
-    (h : IR.boxLevel split ls rs deco kids posX maxX skip = .ok o) :
+    (h : IR.boxLevel ws split ls rs deco kids posX maxX skip = .ok o) :
     ∃ w frags, o.frag = some (.box posX w (if skip.isNone then ls else 0) (if o.resume.isNone then rs else 0)
       deco frags) :=
-  C09L.box_spacing_first_last split ls rs deco kids posX maxX skip o h
+  C09L.box_spacing_first_last ws split ls rs deco kids posX maxX skip o h
 
 /-- shifting a box (start spacing, `text-align`) does not change its extent -/
 theorem translate_keeps_extent (dx : Rat) (f : IR.Frag) : (f.translate dx).marginWidth = f.marginWidth :=
@@ -471,30 +492,23 @@ theorem line_at_least_line_height (lineSt : LV.VStyle) (kids : List LV.VNode) (p
     (h : LV.layoutLine lineSt kids posY = .ok l) : (LV.strutLayout lineSt).1 ≤ l.height :=
   C09L.line_at_least_line_height lineSt kids posY l h
 
-/-- **no overlap between lines**: in a line without `vertical-align: top | bottom`, every box — at any
-nesting depth, for any font sizes, line-heights, `baseline` / `middle` / `text-top` / `text-bottom` /
-length alignments, borders and paddings — has its margin box inside the line box `[y, y + height]`,
-and the line is placed at the `position_y` it was given.  With `stack` (each line starts where the
-previous one ends) no box can overlap a neighbouring line.  For `top` / `bottom` boxes holding inline
-boxes the statement is false of the code: `Witness.C09.top_aligned_grandchild_left_behind`. -/
-theorem boxes_inside_line_partial (lineSt : LV.VStyle) (kids : List LV.VNode) (posY : Rat) (l : LV.VLine)
-    (hn : noTBNodeL kids = true) (h : LV.layoutLine lineSt kids posY = .ok l) :
+/-- **no overlap between lines** (full strength since fix 5152049): in every line, every box — at any
+nesting depth, for any font sizes, line-heights, borders and paddings, and **every** `vertical-align`
+value: `baseline` / `middle` / `text-top` / `text-bottom` / lengths, and `top` / `bottom` boxes holding
+inline boxes or further `top` / `bottom` boxes — has its margin box inside the line box
+`[y, y + height]`, and the line is placed at the `position_y` it was given.  With `stack` (each line
+starts where the previous one ends) no box can overlap a neighbouring line.
+(Was `boxes_inside_line_partial` / `boxes_inside_line_top_bottom_partial` with the hypothesis that a
+`top` / `bottom` box holds only text; regression of the old witness:
+`Witness.C09.top_aligned_grandchild_moves_with_subtree`.) -/
+theorem boxes_inside_line (lineSt : LV.VStyle) (kids : List LV.VNode) (posY : Rat) (l : LV.VLine)
+    (h : LV.layoutLine lineSt kids posY = .ok l) :
     l.y = posY ∧ ∀ d ∈ allBoxesL l.kids, l.y ≤ d.y ∧ d.y + d.marginHeight ≤ l.y + l.height :=
-  C09L.boxes_inside_line lineSt kids posY l hn h
+  C09L.boxes_inside_line_full lineSt kids posY l h
 
-/-- **no overlap between lines, `top` / `bottom` included**: the same containment when every
-`vertical-align: top | bottom` inline box holds only text — `translate_subtree` then moves all of it,
-and the line is made high enough for the highest such subtree.  This hypothesis is the exact
-boundary of finding vertical-align-top-bottom-subtree: with one inline box inside a `top` box the
-statement fails on the code (`Witness.C09.top_aligned_grandchild_left_behind`).  It subsumes
-`boxes_inside_line_partial` (`safe_of_no_top_bottom`). -/
-theorem boxes_inside_line_top_bottom_partial (lineSt : LV.VStyle) (kids : List LV.VNode) (posY : Rat) (l : LV.VLine)
-    (hn : safeTBNodeL kids = true) (h : LV.layoutLine lineSt kids posY = .ok l) :
-    l.y = posY ∧ ∀ d ∈ allBoxesL l.kids, l.y ≤ d.y ∧ d.y + d.marginHeight ≤ l.y + l.height :=
-  C09L.boxes_inside_line_tb lineSt kids posY l hn h
-
-theorem safe_of_no_top_bottom (kids : List LV.VNode) (h : noTBNodeL kids = true) : safeTBNodeL kids = true :=
-  C09L.safeTBNodeL_of_noTB kids h
+/-- without any `top` / `bottom` box `translate_subtree` is never called: nothing moves after placement -/
+theorem no_top_bottom_nothing_moves (a b : Rat) (ks : List LV.VBox) (h : noTBL ks = true) : LV.shiftL a b 0 ks = ks :=
+  C09L.shiftL_noTB a b ks h
 
 def exampleVStyle (fs : Rat) (lh : LV.LineHeight) (va : LV.VAlign) : LV.VStyle :=
   { fs := fs, lh := lh, va := va, bt := 1, pt := 2, pb := 0, bb := 3,
@@ -509,14 +523,19 @@ example : (LV.layoutLine (exampleVStyle 10 .normal .baseline) [.text (exampleVSt
     (fun l => (l.y, l.height)) = some (5, 30) := by decide +kernel
 
 /-- a `top` span of 30px line-height and a `bottom` span in a 10px line: the line grows to 30 -/
-example : safeTBNodeL [.text (exampleVStyle 10 .normal .baseline),
-    .box (exampleVStyle 20 (.px 30) .top) [.text (exampleVStyle 20 (.px 30) .baseline)],
-    .box (exampleVStyle 8 (.num 2) .bottom) [.text (exampleVStyle 8 (.num 2) .baseline)]] = true := by decide
 example : (LV.layoutLine (exampleVStyle 10 .normal .baseline) [.text (exampleVStyle 10 .normal .baseline),
     .box (exampleVStyle 20 (.px 30) .top) [.text (exampleVStyle 20 (.px 30) .baseline)],
     .box (exampleVStyle 8 (.num 2) .bottom) [.text (exampleVStyle 8 (.num 2) .baseline)]] 5).toOption.map
     (fun l => (l.y, l.height, (allBoxesL l.kids).map (fun d => (d.y, d.marginHeight)))) =
     some (5, 30, [(5, 10), (5, 30), (5, 30), (19, 16), (19, 16)]) := by decide +kernel
+
+/-- nested: a `top` span holding a 20px inline box and a `bottom` span holding a `top` span — all of
+them inside the line `[5, 35]` (the hypotheses of `boxes_inside_line` are satisfiable there) -/
+example : (LV.layoutLine (exampleVStyle 10 .normal .baseline) [.text (exampleVStyle 10 .normal .baseline),
+    .box (exampleVStyle 10 .normal .top) [.box (exampleVStyle 20 (.px 30) .baseline) [.text (exampleVStyle 20 (.px 30) .baseline)]],
+    .box (exampleVStyle 8 (.num 2) .bottom) [.box (exampleVStyle 8 (.num 1) .top) [.text (exampleVStyle 8 (.num 1) .baseline)]]] 5).toOption.map
+    (fun l => (l.y, l.height, (allBoxesL l.kids).all (fun d => decide (l.y ≤ d.y ∧ d.y + d.marginHeight ≤ l.y + l.height)))) =
+    some (5, 30, true) := by decide +kernel
 
 /-! ### lines in the width left between floats (`Model/LineFloats` on C11's `avoid_collisions`) -/
 
@@ -593,5 +612,82 @@ example : (Floats.avoidCollisions [⟨50, 0, 30, 20, .right⟩] (LF.lineABox 0 3
   · intro s hs; simp at hs; subst hs; decide +kernel
 example : (LF.paragraph [] floatExamplePara).toOption.map (fun ls => ls.map (fun l => (l.y, l.w)))
     = some [(0, 70), (12, 60), (24, 70)] := by decide +kernel
+
+/-! ### nested inline boxes next to floats (`Model/LineFloatsInline`) and under every `white-space` -/
+
+/-- **refinement: no float = the plain nested-inline paragraph.**  With no excluded shape the float-aware
+`get_next_linebox` for nested inline boxes is line for line `Model/InlineRun` (the model the inline-doc
+correspondence ties to rendered paragraphs): the layers are tied by proof. -/
+theorem no_float_is_plain_inline_paragraph (p : IR.Para) : LFI.paragraph [] p = IR.paragraph p := by
+  unfold LFI.paragraph IR.paragraph
+  rw [LFIL.iterLines_no_float p]
+  rfl
+
+/-- **lines of nested inline boxes next to floats never overlap each other**: each starts at or below the
+bottom of the one before, whatever the floats, the nesting and the `white-space` value. -/
+theorem float_inline_lines_stacked (shapes : List Floats.Shape) (p : IR.Para) (fuel : Nat) (skip : Option IR.Skip)
+    (y : Rat) (first : Bool) (ls : List IR.OutLine)
+    (h : LFI.iterLines shapes p fuel skip y first = some (.ok ls)) : LFIL.StackedBelow y ls :=
+  LFIL.iterLines_stacked shapes p fuel skip y first ls h
+
+/-- **`nowrap` / `pre`: a waiting child is never re-broken.**  Under a `white-space` value for which
+`can_break_inside` does not wrap, `_break_waiting_children` finds no break in any waiting child, for
+every nesting and every text; with `no_break_between_iff_no_wrap` (no opportunity between two children
+either) the only line ends inside nested inline boxes are the preserved line breaks. -/
+theorem no_rebreak_without_wrap (ws : WS) (hw : ws.breakInside = false) (split : IR.Split) (skip : Option IR.Skip)
+    (kept waiting : List IR.Entry) : IR.tryWaiting ws split skip kept waiting = .ok none :=
+  LFIL.tryWaiting_no_wrap ws hw split skip kept waiting
+
+example : WS.nowrap.breakInside = false ∧ WS.pre.breakInside = false ∧ WS.preLine.breakInside = true := by decide
+
+/-- **`nowrap` / `pre` never break at spaces, nested inline boxes included** (the clause of the
+property for the non-wrapping `white-space` values, at document level): whenever a line box of a
+paragraph of nested inline boxes is followed by another line, the character just before the resume
+point — found by following the `resume_at` path down the box tree — is a preserved line break.  For
+every nesting, spacing, width and text; `no_wrap_breaks_only_at_newline` is the same statement for one
+text box.  (Ingredients: no opportunity between two children, `no_rebreak_without_wrap`, and the dead
+"put the child on the next line" branch.) -/
+theorem nested_no_wrap_breaks_only_at_newline (p : IR.Para) (hw : p.st.ws.textWrap = false) (skip : Option IR.Skip)
+    (y : Rat) (first : Bool) (l : IR.OutLine) (h : IR.nextLine p skip y first = .ok (some l)) (r : IR.Skip)
+    (hr : l.resume = some r) : LFIL.charBefore (.box 0 0 false p.kids) r = some '\n' :=
+  LFIL.nextLine_no_wrap p hw skip y first l h r hr
+
+/-- `<span>aaa bbb\n<b>ccc ddd</b></span>` under `pre` in 40px: two lines `aaa bbb` (70 wide, overflowing:
+no break at the space) and `ccc ddd`; the first resume point is `{0: {1: None}}`... the offset after the
+newline inside the first text box of the span -/
+def prePara : IR.Para :=
+  { st := { ws := .pre, wb := .normal, ow := .normal, fs := 10 }
+    kids := [.box 0 0 false [.text "aaa bbb\n".toList, .box 0 0 false [.text "ccc ddd".toList]]]
+    lineHeight := 10, cbx := 0, width := 40, indent := 0
+    align := { alignAll := .start, alignLast := none, ws := .pre, rtl := false }, y := 0 }
+
+example : (IR.nextLine prePara none 0 true).toOption.map
+    (fun o => o.map (fun l => (l.w, l.resume.map (fun r => LFIL.charBefore (.box 0 0 false prePara.kids) r)))) =
+    some (some (70, some (some '\n'))) := by decide +kernel
+
+/-- the seed-5 shape: `<em>aa bbbbbbb cc dd</em>` in a 100px block with a left float 60 × 20: the second
+line resumes inside the `<em>` at `bbbbbbb`; its tentative width is that of `bbbbbbb` (70), not of the
+element's first word `aa` (20), so it does not fit in the 40px beside the float and goes below it. -/
+def emPara : IR.Para :=
+  { st := { ws := .normal, wb := .normal, ow := .normal, fs := 10 }
+    kids := [.box 0 0 false [.text "aa bbbbbbb cc dd".toList]]
+    lineHeight := 10, cbx := 0, width := 100, indent := 0
+    align := { alignAll := .start, alignLast := none, ws := .normal, rtl := false }, y := 0 }
+
+example : (LFI.tentative [⟨0, 0, 60, 20, .left⟩] emPara (some (.mk 0 (some (.mk 0 (some (.mk 3 none))))))).toOption = some (70, 10) ∧
+    (LFI.tentative [⟨0, 0, 60, 20, .left⟩] emPara none).toOption = some (20, 10) := by decide +kernel
+example : (LFI.paragraph [⟨0, 0, 60, 20, .left⟩] emPara).toOption.map (fun ls => ls.map (fun l => (l.x, l.y, l.w))) =
+    some [(60, 0, 20), (0, 20, 100), (0, 30, 20)] := by decide +kernel
+example : (LFI.paragraph [] emPara).toOption.map (fun ls => ls.map (fun l => (l.x, l.y, l.w))) =
+    some [(0, 0, 100), (0, 10, 50)] := by decide +kernel
+
+/-- nested inline boxes under `pre-line`: the preserved line break inside the span ends the first line,
+which is then aligned like a last line (`text-align-last: end`), and `bb cc<b>ddd</b>` is re-broken at the
+space before `cc` when `ddd` overflows (the seed-6 shape): `a` / `bb` / `ccddd` / `ee`. -/
+example : (IR.paragraph { emPara with
+      st := { ws := .preLine, wb := .normal, ow := .normal, fs := 10 }, width := 70,
+      align := { alignAll := .start, alignLast := some .«end», ws := .preLine, rtl := false },
+      kids := [.text "a\nbb cc".toList, .box 0 0 false [.text "ddd".toList], .text " ee".toList] }).toOption.map
+    (fun ls => ls.map (fun l => (l.x, l.w))) = some [(60, 10), (0, 20), (0, 50), (50, 20)] := by decide +kernel
 
 end Wp.C09
